@@ -19,7 +19,8 @@ CLAIMED = {
              "Kani/CBMC: is_none() <=> bits == sentinel", "DESIGN.md C11"),
     "C12": k("Every code of every enumerated field against the specification table, injectivity as a two-variable query, round trip of ship types, wiring per type.",
              "Kani/CBMC: code table + injectivity query", "DESIGN.md C12"),
-    "C13": k("Decoded text equals a reference 6-bit decode + three explicit trim loops for all 64^k strings, k <= 8 quick / <= 20 thorough, through the real message parsers; "
+    "C13": k("Decoded text equals a reference 6-bit decode + three explicit trim loops for all 64^k strings, k <= 8 quick / <= 12 thorough, through the real message parsers; the 20-character "
+             "fields are decomposed: which bits reach the decoder is proved with a transparent stand-in for it (whole payload symbolic), the decoder itself at k <= 12; "
              "the bit range handed to the decoder is checked separately (range wiring, decoder stubbed by a length-preserving stub) for the variable-length texts at the "
              "1008-bit maximum (156 / 161 characters), around the 20-character capacity and at every truncation length of type 5's destination.",
              "Kani/CBMC: byte-for-byte equality with reference decode+trim + range-wiring harnesses at maximal lengths", "DESIGN.md C13 / 0a"),
